@@ -38,7 +38,7 @@ func c29run(c *rig.Ctx, schema bool) {
 	rig.Must(err)
 	defer srv.Stop()
 	l := newLimiter(c)
-	n := c.Pick(100, 3000)
+	n := c.Pick(100, 1200)
 	cnt := newCounters()
 	forCases(srv, n, 8, []string{"set @@dolt_dont_merge_json = 1"}, l.tooMany, func(i int, x *sqlrig.Session) {
 		r := c.SubRand("c29"+stage, i)
@@ -79,10 +79,12 @@ func c29run(c *rig.Ctx, schema bool) {
 			c.Note("refusal: " + truncate(why, 160))
 		}
 		results := map[string]*dirResult{}
+		shiftLR, shiftRL := colShiftVsDelete(sc.Base, sc.Left, sc.Right), colShiftVsDelete(sc.Base, sc.Right, sc.Left)
 		for _, d := range []struct {
 			name, into, from, ours string
 			m                      *mergeOut
-		}{{"left<-right", "ml", "other", "left", mLR}, {"right<-left", "mr", "main", "right", mRL}} {
+			shifted                map[int64]bool
+		}{{"left<-right", "ml", "other", "left", mLR, shiftLR}, {"right<-left", "mr", "main", "right", mRL, shiftRL}} {
 			res, err := mergeDirection(x, db, "t", d.into, d.from, d.m, "")
 			if err != nil {
 				l.violation(prefix+"/read-after-merge", d.name+": "+err.Error(), wit)
@@ -96,6 +98,9 @@ func c29run(c *rig.Ctx, schema bool) {
 			switch {
 			case res.Err != nil:
 				kind, sig := classifyMergeError(res.Err)
+				if len(d.shifted) > 0 {
+					sig += colShiftMark
+				}
 				w["error"] = truncate(res.Err.Error(), 3000)
 				switch {
 				case kind == "internal-error":
@@ -113,7 +118,7 @@ func c29run(c *rig.Ctx, schema bool) {
 			case res.Refused != "":
 				refused(res.Refused)
 			default:
-				compareDirection(l, prefix, label(d.ours), sc, d.m, res, w)
+				compareDirection(l, prefix, label(d.ours), sc, d.m, res, d.shifted, w)
 				results[d.name] = res
 				cnt.add("merges_compared", 1)
 				if len(res.MergeRow) > 1 && res.MergeRow[1] == "1" {
@@ -122,7 +127,14 @@ func c29run(c *rig.Ctx, schema bool) {
 			}
 		}
 		if lr, rl := results["left<-right"], results["right<-left"]; lr != nil && rl != nil {
-			compareSymmetry(l, prefix, sc, mLR, mRL, lr, rl, wit)
+			both := map[int64]bool{}
+			for k := range shiftLR {
+				both[k] = true
+			}
+			for k := range shiftRL {
+				both[k] = true
+			}
+			compareSymmetry(l, prefix, sc, mLR, mRL, lr, rl, both, wit)
 			cnt.add("direction_pairs_compared", 1)
 		}
 		if len(mLR.Conflicts) != len(mRL.Conflicts) {
